@@ -313,6 +313,16 @@ func (p *Prog) checkHitReturns(r *Report, R string, f *ssa.Function, b *ssa.Basi
 		if ex, ok := canon(ret.Results[0]).(*ssa.Extract); ok && ex.Index == 0 && ex.Tuple == ssa.Value(lk) {
 			good = true
 		}
+		// single-exit form: the returned value is a phi of the exit block that takes the found entry on the hit edge
+		if ph, ok := ret.Results[0].(*ssa.Phi); ok && ph.Block() == hit {
+			for i, pr := range hit.Preds {
+				if pr == b {
+					if ex, ok := canon(ph.Edges[i]).(*ssa.Extract); ok && ex.Index == 0 && ex.Tuple == ssa.Value(lk) {
+						good = true
+					}
+				}
+			}
+		}
 	}
 	r.Decide(good, R, "hit-returns:"+p.Name(f)+":"+layer, p.InstrPos(lk), "a hit in "+layer+" returns that very entry", "a hit in "+layer+" does not return the entry that was found")
 }
